@@ -243,6 +243,8 @@ def run_session(r, fe, framer, hostile_kinds, tier):
                 out.setdefault("steps", []).append((obs.delivered, obs.store_changed))
                 if fe in ("AioUdp", "TwUdp") and run.shared is not None and len(run.shared.framer._buffer):
                     out["shared_leftover"] = True
+                    if obs.raised is not None:      # NOT the known finding: a handler that raised must have reset
+                        out["leftover_after_raise"] = True
                 # a stream connection that was stopped / closed / died is replaced by a new one
                 if fe in ("SyncTcp", "AioTcp") and obs.action() in ("Stop", "StopReset", "CloseTransport", "Escape"):
                     cid += 1
@@ -264,7 +266,8 @@ def run_session(r, fe, framer, hostile_kinds, tier):
             out["store"] = Case(sterm, {"fe": fe, "ctx": spec, "cfg": cfg,
                                         "streams": [s.hex() for _, s in sorted(streams.items())],
                                         "cells": [list(c) for c in run.cells],
-                                        "shared_leftover": out.get("shared_leftover", False)},
+                                        "shared_leftover": out.get("shared_leftover", False),
+                                        "leftover_after_raise": out.get("leftover_after_raise", False)},
                                 kind="%s/store" % fe, nontrivial=bool(run.cells))
         # ---- probe on a fresh connection / from a new peer
         listen_only = bool(run.control.ListenOnly)
@@ -295,7 +298,8 @@ def run_session(r, fe, framer, hostile_kinds, tier):
         expect = L.frame(framer, ptid if framer in ("socket",) else 0, pu, expect_pdu, escape=True)
         pdesc = {"fe": fe, "framer": framer, "ctx": spec, "cfg": cfg, "history": steps[-8:], "probe": probe.hex(),
                  "answer": [a.hex() for a in answer], "expected": expect.hex(), "leftover": leftover.hex() if leftover else "",
-                 "probe_obs": pobs.to_json(), "listen_only": listen_only}
+                 "probe_obs": pobs.to_json(), "listen_only": listen_only,
+                 "leftover_after_raise": out.get("leftover_after_raise", False)}
         if not listen_only:
             # what a brand-new server holding the same datastore answers
             run2 = L.Run(fe, framer, spec, cfg)
@@ -375,13 +379,13 @@ def classify(suite, desc):
         return None
     if suite == "store":
         # datagrams glued together by the shared framer of the asyncio datagram server
-        if fe == "AioUdp" and desc.get("shared_leftover"):
+        if fe == "AioUdp" and desc.get("shared_leftover") and not desc.get("leftover_after_raise"):
             return "F-C12-udp-shared-framer"
         return None
     if suite in ("probe", "py_probe_and_tables") and "probe" in desc:
         if fe == "TwUdp":
             return "F-C12-twisted-udp-dead"
-        if fe == "AioUdp" and desc.get("leftover"):
+        if fe == "AioUdp" and desc.get("leftover") and not desc.get("leftover_after_raise"):
             return "F-C12-udp-shared-framer"
         if desc.get("framer") == "tls" and not desc["ctx"]["single"]:
             return "F-C12-tls-multi-unit"
